@@ -22,7 +22,7 @@ from warnings import warn
 from .collections import PVLObject, PVLGroup, Quantity
 from .grammar import PVLGrammar, ODLGrammar, PDSGrammar, ISISGrammar
 from .token import Token
-from .decoder import PVLDecoder, ODLDecoder, PDSLabelDecoder
+from .decoder import PVLDecoder, ODLDecoder, PDSLabelDecoder, OmniDecoder
 
 
 class QuantTup(namedtuple("QuantTup", ["cls", "value_prop", "units_prop"])):
@@ -1207,7 +1207,7 @@ class ISISEncoder(PVLEncoder):
     extend our coverage of this flavor of PVL text.
 
     :param grammar: defaults to pvl.grammar.ISISGrammar().
-    :param decoder: defaults to pvl.decoder.PVLDecoder().
+    :param decoder: defaults to pvl.decoder.OmniDecoder().
     :param end_delimiter: defaults to False.
     :param newline: defaults to '\\\\n'.
     """
@@ -1229,7 +1229,10 @@ class ISISEncoder(PVLEncoder):
             grammar = ISISGrammar()
 
         if decoder is None:
-            decoder = PVLDecoder(grammar)
+            # ISIS text is read with the OmniDecoder (see the ISIS
+            # dialect in pvl_validate), which takes more unquoted text
+            # for dates and times than the PVLDecoder does.
+            decoder = OmniDecoder(grammar)
 
         super().__init__(
             grammar,
